@@ -372,6 +372,25 @@ def probe(payload):
     """escalate n (doubling) until one call takes longer than `cap` seconds or n reaches nmax;
     prints one json line per size so that the parent still has the sizes that finished when it
     has to kill this process."""
+    if "batch" in payload:                   # several corpus witnesses in one process (one interpreter start-up for all)
+        import resource
+        classify_all("tcp:a:1")
+        decode_quiet("pb://a@h/n")
+        hard = resource.getrlimit(resource.RLIMIT_CPU)[1]
+        for item in payload["batch"]:
+            s = "".join(p * k for p, k in item["parts"])
+            f = classify_all if item["kind"] == "hint" else decode_quiet
+            sys.stdout.write("@@START@@" + json.dumps(dict(name=item["name"], n=len(s), length=len(s))) + "\n")
+            sys.stdout.flush()
+            # judged on CPU time: the kernel ends this process (SIGXCPU) once the call has used its limit; the parent then
+            # knows which witness was running and starts a new process for the remaining ones
+            soft = int(time.process_time() + item["cpu_limit"]) + 2
+            resource.setrlimit(resource.RLIMIT_CPU, (soft if hard < 0 else min(soft, hard), hard))
+            t0 = time.process_time()
+            f(s)
+            sys.stdout.write("@@POINT@@" + json.dumps(dict(name=item["name"], n=len(s), length=len(s), t=time.process_time() - t0)) + "\n")
+            sys.stdout.flush()
+        return
     if "parts" in payload:                   # one explicit string (corpus witness): [[piece, count], ...]
         s = "".join(p * k for p, k in payload["parts"])
         f = classify_all if payload["kind"] == "hint" else decode_quiet
@@ -531,3 +550,117 @@ def tub_history(events, plugins=None):
 def connection_timeout():
     from foolscap.connection import TubConnector
     return TubConnector.CONNECTION_TIMEOUT
+
+
+# ---------------------------------------------------------------------------- TubConnector.connectToAll, hint by hint
+
+BEH = ("ok", "cf", "ce", "inv", "key", "late", "val", "lf")      # behaviour named inside the hint: "beh:<kind>:<id>"
+_LATE = []                                                  # Deferreds of "lf" endpoints: they fail LATER (second phase)
+BEH_OUTCOME = {"ok": ("HPending", None), "lf": ("HPending", None), "cf": ("HConnectFails", "ConnectionRefusedError"), "ce": ("HConnectFails", "RuntimeError"),
+               "inv": ("HRaises", "InvalidHintError"), "key": ("HRaises", "KeyError"), "late": ("HRaises", "KeyError"),
+               "val": ("HRaises", "ValueError")}
+
+
+class _BehEndpoint(object):
+    def __init__(self, kind):
+        self.kind = kind
+
+    def connect(self, factory):
+        from twisted.internet import defer, error
+        if self.kind == "cf":
+            return defer.fail(error.ConnectionRefusedError())
+        if self.kind == "ce":
+            raise RuntimeError("endpoint.connect() raised")
+        d = defer.Deferred()                    # "ok": never answers
+        if self.kind == "lf":
+            _LATE.append(d)                     # refused later, when connect() has long returned
+        return d
+
+
+class _BehPlugin(object):
+    def hint_to_endpoint(self, hint, reactor, update_status):
+        from twisted.internet import defer
+        from foolscap.ipb import InvalidHintError
+        kind = hint.split(":")[1]
+        if kind in ("ok", "cf", "ce", "lf"):
+            return _BehEndpoint(kind), "host"
+        if kind == "inv":
+            raise InvalidHintError("plugin refuses " + hint)
+        if kind == "late":
+            return defer.fail(KeyError(hint))
+        raise (KeyError if kind == "key" else ValueError)(hint)
+
+    def describe(self):
+        return "beh"
+
+
+def connect_all_probe(hints):
+    """getReference on a real Tub for a FURL with these hints (handlers: the default tcp handler with recorded endpoints
+    that never answer, and the "beh" plugin); -> what the TubConnector looks like when connect() has returned"""
+    from harness import implenv as E
+    from zope.interface import directlyProvides
+    from foolscap import connection
+    from foolscap.connections import tcp
+    from foolscap.ipb import IConnectionHintHandler
+    from foolscap.logging import log as flog
+    E.reset_clock()
+    del _LATE[:]
+    made = []
+    Base = connection.TubConnector
+
+    class Recording(Base):
+        n_failed = 0
+
+        def __init__(self, *a, **k):
+            made.append(self)
+            Base.__init__(self, *a, **k)
+
+        def failed(self):
+            self.n_failed += 1
+            return Base.failed(self)
+    saved = (tcp.HostnameEndpoint, flog.err, connection.TubConnector)
+    tcp.HostnameEndpoint, flog.err, connection.TubConnector = _RecordingEndpoint, (lambda *a, **k: None), Recording
+    try:
+        with E.quiet():
+            tub = E.Tub(certData=E.pem(0))
+            plug = _BehPlugin()
+            directlyProvides(plug, IConnectionHintHandler)
+            tub.addConnectionHintHandler("beh", plug)
+            tub.startService()
+            E.turn()
+            raised = None
+            try:
+                d = tub.getReference("pb://%s@%s/name" % ("q5l37rle6pojjnllrwjyryulavpqdlq5", ",".join(hints)))
+                d.addErrback(lambda f: None)
+            except Exception as e:  # noqa
+                raised = type(e).__name__
+            E.turn()
+            c = made[0] if made else None
+            out = None
+            if c is not None:
+                def code(st):
+                    for prefix, k in (("connecting", 0), ("bad hint", 1), ("failed to connect", 2), ("connection refused", 3), ("abandoned", 4)):
+                        if st.startswith(prefix):
+                            return k
+                    return 9
+                out = dict(attempted=list(c.attemptedLocations), valid=list(c.validHints), pending=len(c.pendingConnections),
+                           statuses=[[h, code(c._connectionInfo.connectorStatuses.get(h, "?"))] for h in c.attemptedLocations],
+                           reason=c.failureReason.type.__name__ if c.failureReason else None, active=bool(c.active),
+                           failed=c.n_failed, raised=raised, n_connectors=len(made), answered=bool(d.called) if raised is None else None)
+                # second phase: the "lf" endpoints now refuse, one after the other
+                from twisted.internet import error
+                n_late = len(_LATE)
+                try:
+                    while _LATE:
+                        _LATE.pop(0).errback(error.ConnectionRefusedError())
+                        E.turn()
+                    out["late"] = dict(n=n_late, failed=c.n_failed, active=bool(c.active), pending=len(c.pendingConnections),
+                                       answered=bool(d.called) if raised is None else None, raised=None)
+                except Exception as e:  # noqa
+                    out["late"] = dict(n=n_late, raised=type(e).__name__)
+            tub.stopService()
+            E.clock.advance(1000)
+            E.turn()
+    finally:
+        tcp.HostnameEndpoint, flog.err, connection.TubConnector = saved
+    return out
